@@ -127,6 +127,7 @@ type Runner struct {
 	lastRunCollector bool
 	lastRunState     network.VerifState
 	stale            bool            // the direct stream's connection object is to be replaced before the next case
+	ageObs           []AgeObs        // direct stream: what the @age steps of the last case saw (penalty.go)
 	TickBudget       int             // how many whole tick periods the Run stream may still wait for (cfg.go)
 	tickPaid         map[string]bool // (runnable is asked more than once per case)
 }
@@ -274,6 +275,7 @@ func (r *Runner) Do(cs Case) (o Obs) {
 		}
 	}
 	c := r.prepare(cs)
+	r.ageObs = nil
 	pl := cs.payload()
 	if len(pl) == 0 && cs.Cmd != "pong0" {
 		pl = nil // FetchMessage hands a nil payload for zero-length messages
@@ -319,6 +321,13 @@ func (r *Runner) Do(cs Case) (o Obs) {
 			case "@tick":
 				// what Run does between two messages every PeerTickPeriod (the argument is Run's `now`)
 				c.Tick(time.Now().Add(time.Duration(tickAhead(m)) * time.Second))
+				if !slow {
+					c.VerifDrainSent()
+				}
+				continue
+			case "@age":
+				// time passes with the connection kept alive, then Run's next Tick (penalty.go)
+				r.ageStep(c, tickAhead(m))
 				if !slow {
 					c.VerifDrainSent()
 				}
